@@ -381,7 +381,8 @@ theorem C16_homolog_initial (F M : List Nat) (A : List (Nat × Nat)) (minA : Nat
 the reflection test is `det(v)*det(w) < 0`, the flipped column is the last one (`-1`) of the first SVD
 factor, multiplied by `-1`, the product is `v @ w`; `as_matrix` multiplies target · rotation · centre
 with the blocks `[:, :3, 3]`, `[:, :3, :3]`, `[:, :3, 3]`; `apply` adds the centre translation,
-multiplies, adds the target translation; `superimpose` builds `(-mob_centroid, rotation, fix_centroid)`;
+multiplies, adds the target translation; `superimpose` builds the transformation from (minus a mobile-only quantity, a fixed+mobile quantity,
+a fixed-only quantity), i.e. `(-mob_centroid, rotation, fix_centroid)`;
 the outlier loop keeps `sq_dist <= bound`, stops when `count < min_anchors`, rejects
 `max_iterations < 1` and returns the indices of the *fitted* mask. -/
 theorem C16_gen_guards :
@@ -391,10 +392,10 @@ theorem C16_gen_guards :
     Gen.C16.matrixOrder = ["target_translation", "rotation", "center_translation"] ∧
     Gen.C16.matrixBlocks = ["(:,:3,3)", "(:,:3,:3)", "(:,:3,3)"] ∧
     Gen.C16.applySteps = ["add:center_translation", "matmul:rotation", "add:target_translation"] ∧
-    Gen.C16.ctorArgs = ["-mob_centroid", "rotation", "fix_centroid"] ∧
+    Gen.C16.ctorArgs = ["-mobile", "fixed+mobile", "fixed"] ∧
     Gen.C16.inlierCmp = "LtE" ∧ Gen.C16.minAnchorsCmp = "Lt" ∧
     Gen.C16.maxIterCmp = "Lt" ∧ Gen.C16.maxIterConst = 1 ∧
-    Gen.C16.returnedAnchors = "np.where(inlier_mask)[0]" := by
+    Gen.C16.returnedAnchors = "fitted-mask" := by
   decide
 
 /-- The default parameters of the outlier removal are sane: quantiles inside `[0,1]` and ordered,
